@@ -62,6 +62,10 @@ func installDriverHooks(seed int64, policy int) func() {
 			if x%3 != 0 {
 				time.Sleep(time.Duration(x%2000) * time.Microsecond)
 			}
+		case 4: // hold every result-forwarding goroutine for a long while before it reports
+			if name == "uci.fwd.closed" {
+				time.Sleep(25 * time.Millisecond)
+			}
 		case 3: // long sleeps at the hand-over points only
 			if name == "uci.completed" || name == "uci.fwd.closed" || name == "uci.inactive.mid" || name == "uci.exit" {
 				time.Sleep(time.Duration(1+x%6) * time.Millisecond)
@@ -309,6 +313,76 @@ func c16Late(c *fw.Ctx, r *rand.Rand, idx int) {
 		}
 		if len(before) > 1 {
 			c.Violate("driver:duplicate-bestmove", "search answered %d times %v: %s", len(before), before, what())
+		}
+	}
+	c.Distinct(s.transcript(1000))
+}
+
+// c16HeldForwarder: the goroutine that reports a finished search is held back (hook uci.fwd.closed) across
+// ucinewgame / position / go. When it finally runs, its search is long superseded: it must not be able
+// to answer for the search that is active by then (e.g. through a re-used search number).
+func c16HeldForwarder(c *fw.Ctx, r *rand.Rand, idx int) {
+	rc := &recipes[[]int{0, 1, 2, 3}[r.Intn(4)]]
+	opts, _ := recipeOptions(r, rc)
+	s := newUCISession(rc, opts, 0, false, 1, false)
+	what := func() string { return fmt.Sprintf("engine %s options %v: %s", rc.name, opts, s.transcript(24)) }
+	defer s.shutdown(r.Intn(2) == 0)
+	if _, ok := s.sync(); !ok {
+		return
+	}
+	for round := 0; round < 3; round++ {
+		h := gen.Playout(r, gen.Starts()[[]int{0, 1, 5, 25, 26}[r.Intn(5)]], 2+r.Intn(12), gen.Neutral)
+		g1 := ref.NewGameFrom(h.Start, h.Moves)
+		ms := g1.Cur.LegalMoves()
+		if len(ms) == 0 {
+			continue
+		}
+		g2moves := append(append([]ref.Move{}, h.Moves...), ms[r.Intn(len(ms))])
+		p2 := ref.NewGameFrom(h.Start, g2moves).Cur
+		if len(p2.LegalMoves()) == 0 {
+			continue
+		}
+		if r.Intn(2) == 0 {
+			s.send("ucinewgame")
+		}
+		s.send(positionCmd(h.Start, h.Moves, true))
+		// k quick searches, each superseded at once; their forwarders are all held for 25 ms
+		k := 1 + r.Intn(3)
+		for i := 0; i < k; i++ {
+			s.send("go depth 1")
+			s.send(positionCmd(h.Start, h.Moves, true))
+		}
+		s.send("ucinewgame")
+		s.send(positionCmd(h.Start, g2moves, true))
+		var mark int
+		for i := 0; i < k; i++ { // the k-th go of the new game is the one that stays active
+			mark = s.send("go infinite")
+			if i < k-1 {
+				s.send("stop")
+				s.sync()
+			}
+		}
+		time.Sleep(60 * time.Millisecond) // all held forwarders have run by now
+		premature := s.bestmovesBetween(mark, s.mark())
+		s.send("stop")
+		_, _, answered := s.waitLine(mark, isBestmove, uciWatchdog)
+		end, _ := s.sync()
+		end2, _ := s.sync()
+		_ = end
+		bms := s.bestmovesBetween(mark, end2)
+		c.Eval(1)
+		c.Count("held_forwarder_probes", 1)
+		if len(premature) > 0 {
+			c.Violate("driver:stale-bestmove", "go infinite was answered %v without a stop (a held-back forwarder of a superseded search answered for it): %s", premature, what())
+			return
+		}
+		if !answered || len(bms) != 1 {
+			c.Violate("driver:supersede-count", "go infinite + stop answered %d times %v: %s", len(bms), bms, what())
+			return
+		}
+		if why, ok := legalBestmove(bms[0], p2); !ok {
+			c.Violate("driver:stale-bestmove", "go infinite + stop answered %q: %s: %s", bms[0], why, what())
+			return
 		}
 	}
 	c.Distinct(s.transcript(1000))
@@ -649,12 +723,13 @@ func init() {
 		Cases: func(tier string, seed int64) []fw.Case {
 			l := mkCases(nil, "stale", 32, seed, pick(tier, 4, 150))
 			l = mkCases(l, "late", 16, seed, pick(tier, 4, 150))
+			l = mkCases(l, "held", 8, seed, pick(tier, 3, 100))
 			l = mkCases(l, "hostile", 32, seed, pick(tier, 5, 200))
 			l = mkCases(l, "blackbox", 16, seed, pick(tier, 2, 60))
 			return l
 		},
 		Floors: func(string) map[string]int64 {
-			return map[string]int64{"stale_sessions": 100, "stale_parked": 150, "hostile_sessions": 150, "isready_answered": 300, "final_go_checks": 100, "quit_during_search": 20, "leak_checks": 30, "timer_overlap_scenarios": 5, "late_answer_probes": 150, "answered_before_supersession": 20, "blackbox_sessions": 25, "blackbox_gos": 40, "hook_points_seen": 8}
+			return map[string]int64{"stale_sessions": 100, "stale_parked": 150, "hostile_sessions": 150, "isready_answered": 300, "final_go_checks": 100, "quit_during_search": 20, "leak_checks": 30, "timer_overlap_scenarios": 5, "late_answer_probes": 150, "held_forwarder_probes": 40, "answered_before_supersession": 20, "blackbox_sessions": 25, "blackbox_gos": 40, "hook_points_seen": 8}
 		},
 		Run: func(c *fw.Ctx, cs fw.Case) {
 			r := cs.Rand()
@@ -669,6 +744,11 @@ func init() {
 				defer installDriverHooks(cs.Seed, []int{3, 3, 2, 0}[cs.Idx%4])()
 				for i := 0; i < cs.N; i++ {
 					c16Late(c, r, cs.Idx*1000+i)
+				}
+			case "held":
+				defer installDriverHooks(cs.Seed, 4)()
+				for i := 0; i < cs.N; i++ {
+					c16HeldForwarder(c, r, cs.Idx*1000+i)
 				}
 			case "hostile":
 				defer installDriverHooks(cs.Seed, cs.Idx%4)()
